@@ -379,9 +379,258 @@ pub fn run(prop: &'static str, tier: &str) -> i32 {
     programs += total;
     evals += c[0];
   }
+  // ---- stage (g): the shipping build. Everything above runs in the instrumented build (bus
+  // recorder compiled in, opt-level 2, overflow checks). What translated code may assume about
+  // the compiled helpers it calls — and what those helpers may assume about their arguments —
+  // depends on how the helpers were compiled, so every single-instruction block is run again
+  // in a hooks-off build with the repository's release settings, pointers in every region
+  // class, under every pattern of stale host-register contents at block entry.
+  {
+    let r = shipping_stage(prop, tier, &mut rep);
+    if let Some(r) = r {
+      let total = r.cases_total;
+      let c = rep.add_stage(
+        "shipping-build",
+        "hooks-off opt-level-3 build (separate process): all single-instruction blocks x 18 pointer-region vectors (SP/HL/BC/DE/C in fixed ROM, switchable ROM, VRAM, cart RAM, WRAM, echo, OAM, unused, HRAM, both ends) x {flat, MBC1} x 4 host-register patterns at block entry (as left by the caller, and 3 stale patterns injected into bits 16-63 of r12/r13 and all of rax, rbx, rcx, r10, r11, r14, r15), plus representative pairs",
+        r,
+      );
+      programs += total;
+      evals += c[0];
+    }
+  }
   rep.evaluations = evals;
   rep.cov("programs", J::u(programs));
   rep.cov("disagreements_checked", J::u(rep.violations.iter().map(|v| v.count).sum()));
   rep.assume("pairs/triples use canonical immediates (pointers into WRAM/HRAM) and 2-8 register vectors; the complete operand spaces are covered per instruction in stage (a)");
   rep.finish()
+}
+
+// ---------------------------------------------------------------------------------------------
+// stage (g): shipping build
+
+const GARBAGE: [Option<u64>; 4] = [None, Some(0xFFFF_FFFF_FFFF_0000), Some(0xA5A5_5A5A_C3C3_0000), Some(0x0000_0000_0001_0000)];
+
+/// pointers in every region class; all pointer registers of one vector share the class
+fn region_vectors() -> Vec<Cpu> {
+  let ps: [u16; 18] = [0x0010, 0x3FFE, 0x4020, 0x7FFE, 0x8010, 0x9FFE, 0xA010, 0xBFFE, 0xC100, 0xDFFE, 0xE010, 0xFDFE, 0xFE10, 0xFE9E, 0xFEA4, 0xFF80, 0xFFFD, 0xFFFF];
+  let mut v = Vec::new();
+  for (i, p) in ps.iter().enumerate() {
+    let q = p.wrapping_add(4);
+    v.push(Cpu {
+      a: [0x00u8, 0xFF, 0x5A, 0x81][i % 4],
+      f: [0x00u8, 0xF0, 0x10, 0x80][(i / 4) % 4],
+      b: (*p >> 8) as u8,
+      c: *p as u8,
+      d: (q >> 8) as u8,
+      e: q as u8,
+      h: (*p >> 8) as u8,
+      l: (*p as u8).wrapping_add(2),
+      sp: *p,
+      pc: 0x0150,
+    });
+  }
+  v
+}
+
+fn shipping_cases() -> Vec<Vec<u8>> {
+  let (non_term, term) = all_ops();
+  let mut blocks: Vec<Vec<u8>> = Vec::new();
+  for p in non_term.iter() {
+    let mut c = p.clone();
+    c.extend_from_slice(&TERM);
+    blocks.push(c);
+  }
+  for t in term.iter() {
+    blocks.push(t.clone());
+  }
+  // pairs of stack/pointer representatives: the second template sees what the first left in
+  // the host registers
+  let reps: Vec<Vec<u8>> = [0xC1u8, 0xC5, 0xF1, 0xF5, 0x33, 0x3B, 0xE8, 0xF8, 0xF9, 0x08, 0x39, 0x22, 0x3A, 0x34, 0x36, 0x46, 0x70, 0x86, 0x0A, 0x12, 0xE2, 0xF2, 0x31].iter().map(|o| encode(*o, None)).collect();
+  for a in reps.iter() {
+    for b in reps.iter() {
+      let mut c = a.clone();
+      c.extend_from_slice(b);
+      c.extend_from_slice(&TERM);
+      blocks.push(c);
+    }
+    for t in [0xC9u8, 0xD9, 0xCD, 0xC7, 0xE9, 0xC0, 0xC4].iter() {
+      let mut c = a.clone();
+      c.extend_from_slice(&encode(*t, None));
+      blocks.push(c);
+    }
+  }
+  blocks
+}
+
+/// worker entry (runs in the hooks-off build): `gbmc C01 --worker shipping <tier> <out.json>`
+pub fn worker(prop: &'static str, args: &[String]) -> i32 {
+  if args.len() < 3 || args[0] != "shipping" {
+    eprintln!("{} worker: bad arguments {:?}", prop, args);
+    return 2;
+  }
+  if crate::world::hooks_on() {
+    eprintln!("{} worker: the shipping stage must run in the hooks-off build", prop);
+    return 2;
+  }
+  let blocks = shipping_cases();
+  let vecs = region_vectors();
+  let img = crate::world::make_image(0x03, 0x01, 0x02, 4, |b, o| ((o * 7) ^ (o >> 8) ^ (b * 0x55)) as u8);
+  let image = crate::world::write_rom_file(&img);
+  let nb = blocks.len() as u64;
+  let total = nb * 2 * GARBAGE.len() as u64;
+  let opts = PoolOpts { chunk: 32, bitmap_bits: 1 << 16, samples_per_child: 1, workers: crate::util::pool::default_workers().min(6), ..PoolOpts::default() };
+  let img_path = image.clone();
+  let name_of = |blk: &Vec<u8>| -> String {
+    // opcodes of the block without the closing JP
+    let mut out = Vec::new();
+    let mut i = 0;
+    while i < blk.len() {
+      let (n, l) = if blk[i] == 0xCB { (format!("CB{:02X}", blk[i + 1]), 2) } else { (format!("{:02X}", blk[i]), r1::info(blk[i]).map(|x| x.0).unwrap_or(1)) };
+      out.push(n);
+      i += l as usize;
+    }
+    if out.len() > 1 && out.last().map(|s| s == "C3").unwrap_or(false) {
+      out.pop();
+    }
+    out.join("+")
+  };
+  let r = run_pool(
+    total,
+    &opts,
+    |_| (JitWorld::new(), JitWorld::new_banked(&img_path, 2)),
+    |ws, case, ctx| {
+      let gi = (case % GARBAGE.len() as u64) as usize;
+      let wi = ((case / GARBAGE.len() as u64) % 2) as usize;
+      let blk = &blocks[(case / (2 * GARBAGE.len() as u64)) as usize];
+      let jw = if wi == 0 { &mut ws.0 } else { &mut ws.1 };
+      jw.host_garbage = GARBAGE[gi];
+      let nm = name_of(blk);
+      ctx.sample(|| J::obj().set("block", J::s(hex(blk))).set("world", J::s(if wi == 0 { "flat" } else { "mbc1" })).set("host_registers", J::s(match GARBAGE[gi] { None => "as left by the caller".to_string(), Some(g) => format!("{:016X}", g) })));
+      // the key names the block and the pointer region, not the host pattern
+      jw.unplant_all();
+      jw.plant_bytes(0x0150, blk);
+      for c0 in vecs.iter() {
+        let c = *c0;
+        let oi = jw.run_interp_block(&c);
+        jw.restore(&oi);
+        let t0 = jw.total_translations;
+        let g0 = jw.garbage_calls;
+        let oj = jw.run_jit_block(&c, 3);
+        jw.restore(&oj);
+        ctx.count(0, 1);
+        ctx.count(1, jw.total_translations - t0);
+        ctx.count(2, (jw.garbage_calls - g0) as u64);
+        ctx.class((((oi.af as u64) >> 4) & 0xf) | ((oi.cycles as u64 & 0xff) << 4) | ((oi.io_digest & 0x7) << 12) | ((oi.refused as u64) << 15));
+        let d = block_diff(&oi, &oj);
+        for f in d.iter() {
+          let is_cycles = *f == "cycles";
+          if (prop == "C02") != is_cycles {
+            continue;
+          }
+          let fname = if *f == "device-state" { "memory-or-device-state" } else { *f };
+          let key = if is_cycles { format!("C02 shipping-build block={} ptr={:04X} jit={} interp={}", nm, c.sp, oj.cycles, oi.cycles) } else { { let _ = fname; format!("C01 shipping-build block={} ptr-region={:X}xxx", nm, c.sp >> 12) } };
+          ctx.violation(&key, || {
+            J::obj()
+              .set("case", J::obj().set("block_bytes", J::s(hex(blk))).set("at", J::s("0150")).set("world", J::s(if wi == 0 { "flat" } else { "mbc1" })).set("host_register_pattern", J::s(format!("{:?}", GARBAGE[gi]))).set("regs", J::s(format!("{:?}", c))))
+              .set("build", J::s("hooks off, opt-level 3, no overflow checks (the repository's release settings)"))
+              .set("interpreter", obs_json(&oi))
+              .set("translated", obs_json(&oj))
+              .set("differing_fields", J::Arr(d.iter().map(|x| J::s(*x)).collect()))
+          });
+        }
+      }
+    },
+    |case, how| {
+      let gi = (case % GARBAGE.len() as u64) as usize;
+      let wi = ((case / GARBAGE.len() as u64) % 2) as usize;
+      let blk = &blocks[(case / (2 * GARBAGE.len() as u64)) as usize];
+      (
+        format!("{} shipping-build block={} crash={}", prop, name_of(blk), how),
+        J::obj().set("case", J::obj().set("block_bytes", J::s(hex(blk))).set("world", J::s(if wi == 0 { "flat" } else { "mbc1" })).set("host_register_pattern", J::s(format!("{:?}", GARBAGE[gi])))).set("build", J::s("hooks off, opt-level 3")),
+      )
+    },
+  );
+  let _ = std::fs::remove_file(&image);
+  let viol = J::Arr(r.violations.iter().map(|v| J::obj().set("key", J::s(v.key.as_str())).set("count", J::u(v.count)).set("detail", v.detail.clone())).collect());
+  let meta = J::obj()
+    .set("cases_done", J::u(r.cases_done))
+    .set("cases_total", J::u(r.cases_total))
+    .set("distinct", J::u(r.distinct))
+    .set("evals", J::u(r.counters[0]))
+    .set("translations", J::u(r.counters[1]))
+    .set("injected_calls", J::u(r.counters[2]))
+    .set("crashes", J::u(r.crashes))
+    .set("capped", J::Bool(r.capped))
+    .set("wall_ms", J::u(r.wall.as_millis() as u64))
+    .set("samples", J::Arr(r.samples.clone()))
+    .set("violations", viol)
+    .set("machinery", J::Arr(r.machinery_errors.iter().map(|m| J::s(m.as_str())).collect()));
+  if std::fs::write(&args[2], meta.to_string()).is_err() {
+    return 2;
+  }
+  0
+}
+
+/// parent side: run the worker in the hooks-off build and fold its result in as a stage
+fn shipping_stage(prop: &str, tier: &str, rep: &mut Report) -> Option<crate::util::pool::PoolResult> {
+  let bin = match std::env::var("GBMC_PLAIN_BIN") {
+    Ok(b) => b,
+    Err(_) => {
+      rep.machinery_error("GBMC_PLAIN_BIN not set (run through bin/check)".to_string());
+      return None;
+    },
+  };
+  let out = format!("{}/shipping_{}.json", crate::util::pool::tmp_dir(), prop);
+  let st = std::process::Command::new(&bin).args(&[prop, "--worker", "shipping", tier, &out]).status();
+  match st {
+    Ok(s) if s.success() => {},
+    Ok(s) => {
+      rep.machinery_error(format!("shipping-build worker failed: {:?}", s));
+      return None;
+    },
+    Err(e) => {
+      rep.machinery_error(format!("cannot start shipping-build worker {}: {}", bin, e));
+      return None;
+    },
+  }
+  let m = match crate::progrun::parse_json_file(&out) {
+    Ok(m) => m,
+    Err(e) => {
+      rep.machinery_error(format!("shipping-build worker result: {}", e));
+      return None;
+    },
+  };
+  let _ = std::fs::remove_file(&out);
+  let mut r = crate::util::pool::PoolResult::empty();
+  let num = |k: &str| m.int_of(k).max(0) as u64;
+  r.cases_done = num("cases_done");
+  r.cases_total = num("cases_total");
+  r.distinct = num("distinct");
+  r.counters[0] = num("evals");
+  r.counters[1] = num("translations");
+  r.counters[2] = num("injected_calls");
+  if r.counters[2] * 4 != r.counters[0] * 3 {
+    rep.machinery_error(format!("shipping-build worker: {} of {} block runs entered with injected host registers, expected 3 in 4 (prologue not located?)", r.counters[2], r.counters[0]));
+  }
+  r.crashes = num("crashes");
+  r.capped = matches!(m.get("capped"), Some(J::Bool(true)));
+  r.wall = std::time::Duration::from_millis(num("wall_ms"));
+  if let Some(ss) = m.get("samples").and_then(|v| v.as_arr()) {
+    r.samples = ss.iter().cloned().collect();
+  }
+  if let Some(vs) = m.get("violations").and_then(|v| v.as_arr()) {
+    for v in vs {
+      r.violations.push(crate::util::pool::Violation { key: v.str_of("key"), count: v.int_of("count").max(1) as u64, detail: v.get("detail").cloned().unwrap_or(J::Null) });
+    }
+  }
+  if let Some(ms) = m.get("machinery").and_then(|v| v.as_arr()) {
+    for x in ms {
+      r.machinery_errors.push(format!("shipping-build worker: {}", x.as_str().unwrap_or("")));
+    }
+  }
+  if r.cases_total == 0 {
+    rep.machinery_error("shipping-build worker reported no cases".to_string());
+    return None;
+  }
+  Some(r)
 }
